@@ -289,6 +289,40 @@ theorem step_wf (m : Machine) (op : Op) (hm : m.WFm) : (m.step op).WFm := by
         exact hm p (List.mem_of_getElem? hp) x (List.mem_of_mem_eraseIdx hx)
       · exact hm
 
+  | cpa i j k =>
+    simp only [Machine.step]
+    cases hp : m.paths[i]? with
+    | none => exact hm
+    | some p =>
+      cases hq : m.paths[j]? with
+      | none => exact hm
+      | some q =>
+        simp only
+        cases hr : q.frames[k]? with
+        | none => exact hm
+        | some r =>
+          simp only [Machine.say]
+          have hrl : r < m.heap.sys.length := hm q (List.mem_of_getElem? hq) r (List.mem_of_getElem? hr)
+          have hc : m.heap.copySys r = (m.heap.push [m.heap.getD r], m.heap.sys.length) := by
+            simp [Heap.copySys, look_of_lt m.heap r hrl, Heap.push]
+          rw [hc]
+          simp only
+          have hmono : ∀ rs, WF m.heap rs → WF (m.heap.push [m.heap.getD r]) rs :=
+            fun rs h => WF_mono _ _ rs (by simp) h
+          apply wfm_set
+          · exact fun x hx => hmono _ (hm x hx)
+          · intro x hx
+            rcases append_frames_sub p _ x hx with h1 | rfl
+            · exact hmono _ (hm p (List.mem_of_getElem? hp)) x h1
+            · simp
+  | emptyOf i ml t =>
+    simp only [Machine.step]
+    cases hp : m.paths[i]? with
+    | none => exact hm
+    | some p =>
+      simp only [Machine.say]
+      exact wfm_snoc _ _ _ hm (fun r hr => by simp [Path.empty] at hr)
+
 theorem run_wf (ops : List Op) : ∀ (m : Machine), m.WFm → (m.run ops).WFm := by
   induction ops with
   | nil => intro m hm; exact hm
